@@ -9,6 +9,8 @@ def generate(G):
                           ("RootClone", "quick", "pass started from a clone of the result, which is then dropped"),
                           ("LeafClones", "quick", "program works on clones (dropped afterwards); gradients read through the originals"),
                           ("CloneThenTrack", "quick", "leaves created untracked; the program works on raw.clone().tracked(); gradients read through the raw handles"),
-                          ("MetricFirst", "quick", "a custom Array::op without a derivative is applied to the leaves before the program")]:
+                          ("MetricFirst", "quick", "a custom Array::op without a derivative is applied to the leaves before the program"),
+                          ("HoldGradient", "quick", "two passes; the caller keeps a clone of the gradient fetched after the first (the stored buffer is shared)"),
+                          ("FreezeClone", "quick", "two passes; between them a clone of a leaf is frozen with untracked() - the original's gradient must survive and accumulate")]:
         G.ob("c12_" + e.lower(), "C12", "edit", "c12::edit(s, c12::Edit::%s)" % e, unwind=6, tier=tier,
              skeleton={"edit": e, "what": what, "program": "(a*b + a) * b on shape [2]"}, domains="values, seed D4")
